@@ -544,6 +544,25 @@ func TestCheck(t *testing.T) {
 		c.FP(vk.Hash64("hashdel", v%4), true)
 		c.End()
 	}
+	for _, op := range dupOps {
+		for _, racing := range []bool{false, true} {
+			reps := 1
+			if racing {
+				reps = r.Env.N(20, 300)
+			}
+			for rep := 0; rep < reps; rep++ {
+				i := idx
+				idx++
+				if !r.Mine(i) {
+					continue
+				}
+				c := r.Begin(i, map[string]any{"family": "second-object-for-a-listed-hash", "op": op, "found_while_being_added": racing, "rep": rep})
+				dupAdd(t, c, op, racing, rep)
+				c.FP(vk.Hash64("dupadd", op, racing), true)
+				c.End()
+			}
+		}
+	}
 	r.Count("enumerated_cases", int64(len(cases)))
 	r.Finish()
 }
